@@ -29,6 +29,7 @@ func genC05Opt(t *rapid.T, gQualified bool) C05Case {
 	}
 	if gate("c05-same-name-init") {
 		o.NoSameName = true
+		o.SameNameBareInit = true // `local v = v` resolves correctly; the finding needs an operator / constructor around the read
 	}
 	if gate("c05-func-in-for-bounds") {
 		o.NoFuncInForBounds = true
